@@ -471,15 +471,17 @@ ApplyFun(f, vs, atoms) ==
             (IF \A i \in 1..n : cv[i].t \in ats[i] \/ (cv[i].t = "S" /\ ats[i] \cap {"I", "F"} # {}) THEN UNS ELSE ERR)
      ELSE
      CASE f = "SUBSTR" ->
-            \* start < 0 counts as 0; start >= length gives ""; count 0 = up to the end; count < 0 left open
-            IF ~SmallArg(cv[2]) \/ ~SmallArg(cv[3]) THEN UNS
-            ELSE LET s == cv[1].v
-                     st0 == ToInt(cv[2].v)
-                     st == IF st0 < 0 THEN 0 ELSE st0
-                     cnt == ToInt(cv[3].v)
-                     avail == IF st >= Len(s) THEN 0 ELSE Len(s) - st
-                     take == IF cnt = 0 \/ cnt > avail THEN avail ELSE cnt
-                 IN IF cnt < 0 THEN UNS ELSE SV(SubSeq(s, st + 1, st + take))
+            \* start < 0 counts as 0; start >= length gives "" - for every 64-bit start, not only small ones;
+            \* count 0 = up to the end, a count beyond the end likewise; count < 0 left open
+            LET s == cv[1].v
+                a2 == cv[2].v
+                a3 == cv[3].v
+                st == IF IsNeg(a2) THEN 0
+                      ELSE IF FitsSmall(a2) /\ ToInt(a2) < Len(s) THEN ToInt(a2) ELSE Len(s)
+                avail == Len(s) - st
+                take == IF IsZero(a3) THEN avail
+                        ELSE IF FitsSmall(a3) /\ ToInt(a3) < avail THEN ToInt(a3) ELSE avail
+            IN IF IsNeg(a3) THEN UNS ELSE SV(SubSeq(s, st + 1, st + take))
        [] f = "STRSTR" -> IntV(FindSub(cv[1].v, cv[2].v, 0))
        [] f = "CHARFROMSTR" ->
             IF ~SmallArg(cv[2]) THEN IntV(0 - 1)
